@@ -30,6 +30,7 @@ THEOREMS = [
     "Typedpy.C16.stub_text_example",
     "Typedpy.C16.parse_rejects_examples",
     "Typedpy.C16.lex_render_roundtrip", "Typedpy.C16.stub_init_text_accepted",
+    "Typedpy.C16.stub_helper_text_accepted", "Typedpy.C16.stub_method_text_accepted",
     "Typedpy.C16.stub_kw_apd_declared", "Typedpy.C16.stub_kw_apd_undeclared",
     "Typedpy.C16.stubD_names_agree_iff",
     "Typedpy.C16.stubD_required_agree",
